@@ -166,7 +166,9 @@ Ctx(O) == [C |-> UClasses, En |-> UEnums, O |-> O, S |-> UStrAttr]
 Leaves ==
   { TNone, TBool, TInt, TFloat, TStr, TAny,
     TLit(<<DInt(1), DInt(2)>>), TLit(<<DStr("a"), DStr("b")>>), TLit(<<DInt(1), DStr("a")>>),
-    TLit(<<DStr("")>>), TEnum("E1"),             \* single-valued and FALSY: the schema uses `const`
+    TLit(<<DStr("")>>), TEnum("E1"),
+    \* Literal["q", ES.B, 7]: primitive values mixed with a member of a plain Enum
+    TLitM(<<DStr("q"), DStr("b"), DInt(7)>>, <<[k |-> "none"], VEnum("ES", "B"), [k |-> "none"]>>),             \* single-valued and FALSY: the schema uses `const`
     TEnum("EI"), TEnum("ES"), TEnum("EM"),
     TNew("NI", TInt),
     TAnnot(TInt,   << <<"min", 2>>, <<"max", 6>> >>),
